@@ -393,10 +393,11 @@ Proof.
   split; [exact Fa|]. fold a in Ea. rewrite Ea. exact Rs.
 Qed.
 
-(* int(math.Floor(a)) for every finite a >= 0 is the integer part of a *)
-Lemma trunc_ffloor_any a : fin a -> (0 <= FR a)%R -> f_trunc_Z (ffloor a) = Zfloor (FR a).
+(* int(math.Floor(a)) for every finite 0 <= a < 2^63 is the integer part of a (from 2^63 on the amd64
+   conversion yields math.MinInt64: F64.f_trunc_Z) *)
+Lemma trunc_ffloor_any a : fin a -> (0 <= FR a)%R -> (FR a < bpow radix2 63)%R -> f_trunc_Z (ffloor a) = Zfloor (FR a).
 Proof.
-  intros Fa A0. destruct (PrimFloat.leb two52 (PrimFloat.abs a)) eqn:E.
+  intros Fa A0 A63. destruct (PrimFloat.leb two52 (PrimFloat.abs a)) eqn:E.
   - unfold ffloor. rewrite E. now apply f_trunc_Z_floor.
   - apply trunc_ffloor; [exact Fa|]. split; [exact A0|].
     rewrite leb_R in E by auto using fin_two52, fin_abs.
@@ -418,12 +419,14 @@ Qed.
 
 Lemma np_of_range thr n c k j : FR c = bpow radix2 k -> fin c ->
   PrimFloat.leb 0%float thr = true -> PrimFloat.leb thr c = true ->
-  fin (f_of_Z n) -> (0 <= FR (f_of_Z n) <= bpow radix2 j)%R -> 0 <= k + j -> k + j + 1 <= 1000 ->
+  fin (f_of_Z n) -> (0 <= FR (f_of_Z n) <= bpow radix2 j)%R -> 0 <= k + j -> k + j + 1 <= 62 ->
   1 <= np_of thr n <= 2 ^ (k + j + 1).
 Proof.
   intros Ec Fc H0 H1 Fd Hd Hkj0 Hkj. destruct (thr_bounds thr c k Ec Fc H0 H1) as [N T1].
-  destruct (thr_sum_R thr (f_of_Z n) k j N T1 Fd Hd Hkj0 Hkj) as [Fa [A1 A2]].
-  unfold np_of. rewrite trunc_ffloor_any by (try exact Fa; lra). split.
+  destruct (thr_sum_R thr (f_of_Z n) k j N T1 Fd Hd Hkj0 ltac:(lia)) as [Fa [A1 A2]].
+  assert (A63 : (FR (PrimFloat.add (PrimFloat.mul thr (f_of_Z n)) 1%float) < bpow radix2 63)%R).
+  { apply Rle_lt_trans with (1 := A2). apply bpow_lt. lia. }
+  unfold np_of. rewrite trunc_ffloor_any by (try exact Fa; try exact A63; lra). split.
   - apply Zfloor_lub. exact A1.
   - apply le_IZR. apply Rle_trans with (1 := Zfloor_lb _). apply Rle_trans with (1 := A2).
     rewrite <- (IZR_Zpower radix2) by lia. apply IZR_le. change (Zpower radix2 (k + j + 1)) with (2 ^ (k + j + 1)). lia.
@@ -437,7 +440,7 @@ Lemma fin_c29 : fin c29. Proof. fin_c. Qed.
 Lemma fin_c900 : fin c900. Proof. fin_c. Qed.
 
 (* 0 <= SurvivalThresh <= 2^29 and 1 <= n < 2^31: numParents lies in [1, 2^61], inside the range
-   where the model's int(x) is Go's int(x) *)
+   [-2^63, 2^63) in which Go's int(x) truncates on every platform *)
 Theorem np_of_small thr n :
   PrimFloat.leb 0%float thr = true -> PrimFloat.leb thr c29 = true -> 0 <= n < 2 ^ 31 ->
   1 <= np_of thr n <= 2 ^ 61.
@@ -448,12 +451,79 @@ Proof.
   change (Zpower radix2 31) with (2 ^ 31). lia.
 Qed.
 
-(* 0 <= SurvivalThresh <= 2^900 and ANY species size: numParents >= 1 *)
+(* 0 <= SurvivalThresh <= 1/2 and ANY species size (also sizes no Go slice can have: float64(n) stays
+   in [0, 2^63]): SurvivalThresh * float64(n) + 1 lies in [1, 3 * 2^61], below 2^63, so numParents >= 1.
+   No larger bound works for every n: 1 * float64(2^63 - 1) + 1 = 2^63 converts to math.MinInt64. *)
+Definition chalf : float := 0x1p-1%float.
+Lemma FR_chalf : FR chalf = bpow radix2 (-1). Proof. apply FR_pow2_const. vm_compute. reflexivity. Qed.
+Lemma fin_chalf : fin chalf. Proof. fin_c. Qed.
+
+Lemma format_3_61 : generic_format radix2 fexp64 (3 * bpow radix2 61)%R.
+Proof.
+  change fexp64 with (FLT_exp (3 - emax - prec) prec). apply generic_format_FLT.
+  apply (FLT_spec radix2 (3 - emax - prec) prec _ (Float radix2 3 61)).
+  - unfold F2R. cbn [Fnum Fexp]. reflexivity.
+  - cbn. lia.
+  - cbn. unfold emax, prec. lia.
+Qed.
+
+Lemma thr_sum_half thr d : nnf thr -> (FR thr <= bpow radix2 (-1))%R -> fin d -> (0 <= FR d <= bpow radix2 63)%R ->
+  let a := PrimFloat.add (PrimFloat.mul thr d) 1%float in
+  fin a /\ (1 <= FR a <= 3 * bpow radix2 61)%R.
+Proof.
+  intros [Ft T0] T1 Fd [D0 D1] a.
+  pose proof (bpow_gt_0 radix2 (-1)) as Pk. pose proof (bpow_gt_0 radix2 63) as Pj.
+  assert (E62 : (bpow radix2 (-1) * bpow radix2 63 = bpow radix2 62)%R) by (rewrite <- bpow_plus; reflexivity).
+  assert (E62' : (bpow radix2 62 = 2 * bpow radix2 61)%R) by (change 62 with (1 + 61); rewrite bpow_plus; reflexivity).
+  assert (G1 : (1 <= bpow radix2 61)%R) by (change 1%R with (bpow radix2 0); apply bpow_le; lia).
+  assert (Lt1 : (3 * bpow radix2 61 < two1024)%R).
+  { apply Rlt_trans with (bpow radix2 63).
+    - change 63 with (2 + 61). rewrite bpow_plus. change (bpow radix2 2) with 4%R. lra.
+    - apply bpow_lt. unfold emax. lia. }
+  assert (Hprod : (0 <= FR thr * FR d <= bpow radix2 62)%R).
+  { split; [nra|]. rewrite <- E62. apply Rmult_le_compat; lra. }
+  assert (Rp : (0 <= rnd (FR thr * FR d) <= bpow radix2 62)%R).
+  { split; [apply rnd_nonneg; apply Hprod|]. rewrite <- (rnd_bpow 62) by lia. apply rnd_le. apply Hprod. }
+  destruct (mul_R thr d Ft Fd) as [Ep Fp]; [rewrite Rabs_pos_eq by apply Rp; lra|].
+  set (p := PrimFloat.mul thr d) in *.
+  assert (Rs : (1 <= rnd (FR p + FR 1%float) <= 3 * bpow radix2 61)%R).
+  { rewrite FR_one, Ep. split.
+    - rewrite <- rnd_one at 1. apply rnd_le. lra.
+    - replace (3 * bpow radix2 61)%R with (rnd (3 * bpow radix2 61)).
+      + apply rnd_le. lra.
+      + unfold rnd. apply round_generic; auto with typeclass_instances. exact format_3_61. }
+  destruct (add_R p 1%float Fp fin_one) as [Ea Fa]; [rewrite Rabs_pos_eq by lra; lra|].
+  split; [exact Fa|]. fold a in Ea. rewrite Ea. exact Rs.
+Qed.
+
 Theorem np_of_pos thr n :
-  PrimFloat.leb 0%float thr = true -> PrimFloat.leb thr c900 = true -> 0 <= n -> 1 <= np_of thr n.
+  PrimFloat.leb 0%float thr = true -> PrimFloat.leb thr chalf = true -> 0 <= n -> 1 <= np_of thr n.
 Proof.
   intros H0 H1 Hn. destruct (f_of_Z_any n Hn) as [Fd Hd].
-  apply (np_of_range thr n c900 900 63 FR_c900 fin_c900 H0 H1 Fd Hd); lia.
+  destruct (thr_bounds thr chalf (-1) FR_chalf fin_chalf H0 H1) as [N T1].
+  destruct (thr_sum_half thr (f_of_Z n) N T1 Fd Hd) as [Fa [A1 A2]].
+  unfold np_of. rewrite trunc_ffloor_any; [apply Zfloor_lub; exact A1|exact Fa|lra|].
+  apply Rle_lt_trans with (1 := A2). change 63 with (2 + 61). rewrite bpow_plus. change (bpow radix2 2) with 4%R.
+  pose proof (bpow_gt_0 radix2 61). lra.
+Qed.
+
+(* int(math.Floor(a)) of a finite a >= 1 is at least 1 - or, from 2^63 on, the integer indefinite
+   math.MinInt64: never 0 and never a small negative number *)
+Lemma trunc_ffloor_ge1_or_indefinite a : fin a -> (1 <= FR a)%R ->
+  1 <= f_trunc_Z (ffloor a) \/ f_trunc_Z (ffloor a) = int64_indefinite.
+Proof.
+  intros Fa A1. destruct (Rlt_or_le (FR a) (bpow radix2 63)) as [L|L].
+  - left. rewrite trunc_ffloor_any; [apply Zfloor_lub; exact A1|exact Fa|lra|exact L].
+  - right. assert (E : PrimFloat.leb two52 (PrimFloat.abs a) = true).
+    { apply leb_of_R; auto using fin_two52, fin_abs. rewrite FR_two52, FR_abs, Rabs_pos_eq by lra.
+      apply Rle_trans with (2 := L). apply bpow_le. lia. }
+    unfold ffloor. rewrite E. unfold f_trunc_Z.
+    destruct (fin_nonneg_sf a Fa ltac:(lra)) as [[s [Es Ez]]|[m [e [Es Ev]]]]; [rewrite Ez in A1; lra|].
+    rewrite Es, sf_pos_val. rewrite <- Ev.
+    assert (H63 : 2 ^ 63 <= Zfloor (FR a)).
+    { apply Zfloor_lub. rewrite <- bpow63. exact L. }
+    replace (Z.ltb (Zfloor (FR a)) 9223372036854775808) with false by (symmetry; apply Z.ltb_ge; lia).
+    rewrite Bool.andb_false_r. reflexivity.
 Qed.
 
 (* ------------------------------------------------------------------------------------------ *)
@@ -580,4 +650,136 @@ Proof.
   { apply (proj1 (mono_div _ Fd D1)). apply fold_add_ext; [left; exact nnf_zero|]. intros x Hx. apply ext_iff, H, Hx. }
   split; [now apply ext_iff|]. intros Hz x Hx Hf. apply ext_iff. apply div_ext_nonzero; [|exact Ea|exact Hz].
   apply nnf_of_cmp; [now apply H|exact Hf].
+Qed.
+
+(* ------------------------------------------------------------------------------------------ *)
+(* 8. the quotients fitness / average are small: at most 2n                                      *)
+(*    (so int(math.Floor(ExpectedOffspring)) is an in-range conversion: no NaN, no infinity,      *)
+(*    nothing near 2^63, whatever the magnitude of the FINITE fitness values, subnormal included)  *)
+(* ------------------------------------------------------------------------------------------ *)
+From Flocq Require Import Mult_error.
+
+Lemma FR_fmt x : generic_format radix2 fexp64 (FR x).
+Proof. unfold FR. apply generic_format_B2R. Qed.
+
+(* doubling a binary64 value is exact (overflow aside) *)
+Lemma rnd_double a : rnd (2 * FR a) = (2 * FR a)%R.
+Proof.
+  unfold rnd. apply round_generic; auto with typeclass_instances.
+  replace (2 * FR a)%R with (FR a * bpow radix2 1)%R by (simpl (bpow radix2 1); lra).
+  change fexp64 with (FLT_exp (-1074) 53). apply mult_bpow_pos_exact_FLT; [|lia].
+  exact (FR_fmt a).
+Qed.
+
+(* a + b for finite a, b >= 0: the rounded sum, or +infinity *)
+Lemma add_gen_cases a b : nnf a -> nnf b ->
+  (nnf (a + b)%float /\ FR (a + b)%float = rnd (FR a + FR b)) \/ pinf (a + b)%float.
+Proof.
+  intros [Fa A0] [Fb B0].
+  assert (P0 : (0 <= rnd (FR a + FR b))%R) by (apply rnd_nonneg; lra).
+  destruct (Rlt_dec (rnd (FR a + FR b)) two1024) as [Hlt|Hge].
+  - left. destruct (add_R a b Fa Fb) as [E F]; [rewrite Rabs_pos_eq by exact P0; exact Hlt|].
+    split; [split; [exact F|rewrite E; exact P0]|exact E].
+  - right. destruct (add_ext a b (or_introl (conj Fa A0)) (or_introl (conj Fb B0))) as [[F _]|P]; [|exact P].
+    exfalso. apply Hge. pose proof (FR_lt_emax (a + b)%float) as L.
+    pose proof (Bplus_correct prec emax _ _ mode_NE (FP.Prim2B a) (FP.Prim2B b) (proj1 (fin_B a) Fa) (proj1 (fin_B b) Fb)) as H.
+    simpl round_mode in H. fold (FR a) (FR b) in H.
+    change (round radix2 fexp64 ZnearestE (FR a + FR b)) with (rnd (FR a + FR b)) in H.
+    destruct (Rlt_bool_spec (Rabs (rnd (FR a + FR b))) (bpow radix2 emax)) as [Hl|Hg].
+    + rewrite Rabs_pos_eq in Hl by exact P0. exact Hl.
+    + exfalso. destruct H as [H _]. apply fin_B in F. rewrite FP.add_equiv in F.
+      destruct (Bplus _ _ _) ; try discriminate H; discriminate F.
+Qed.
+
+Lemma fold_add_pinf {A} (g : A -> float) l : forall acc, pinf acc -> (forall x, In x l -> ext (g x)) ->
+  pinf (fold_left (fun a x => PrimFloat.add a (g x)) l acc).
+Proof.
+  induction l as [|x l IH]; intros acc Pa H; cbn [fold_left]; [exact Pa|].
+  apply IH; [|intros y Hy; apply H; now right].
+  destruct (add_ext acc (g x) (or_intror Pa) (H x (or_introl eq_refl))) as [[F _]|P]; [|exact P].
+  exfalso. unfold pinf in Pa. apply fin_sf in F. rewrite add_spec, Pa in F.
+  destruct (H x (or_introl eq_refl)) as [[Fg _]|Pg].
+  - apply fin_sf in Fg. destruct (Prim2SF (g x)) as [s|s| |s m e]; try contradiction; exact F.
+  - unfold pinf in Pg. rewrite Pg in F. exact F.
+Qed.
+
+(* a FINITE left-to-right float sum of finite values >= 0 is at least the start value and every term *)
+Lemma fold_add_ge {A} (g : A -> float) l : forall acc, nnf acc -> (forall x, In x l -> nnf (g x)) ->
+  fin (fold_left (fun a x => PrimFloat.add a (g x)) l acc) ->
+  (FR acc <= FR (fold_left (fun a x => PrimFloat.add a (g x)) l acc))%R /\
+  forall x, In x l -> (FR (g x) <= FR (fold_left (fun a x => PrimFloat.add a (g x)) l acc))%R.
+Proof.
+  induction l as [|y l IH]; intros acc Na H F; cbn [fold_left] in *.
+  - split; [lra|intros x []].
+  - destruct (add_gen_cases acc (g y) Na (H y (or_introl eq_refl))) as [[N1 E1]|P1].
+    + destruct (IH _ N1 (fun z Hz => H z (or_intror Hz)) F) as [I1 I2].
+      destruct Na as [Fa A0]. destruct (H y (or_introl eq_refl)) as [Fy Y0].
+      assert (G1 : (FR acc <= FR (acc + g y)%float)%R).
+      { rewrite E1. rewrite <- (rnd_FR acc) at 1. apply rnd_le. lra. }
+      assert (G2 : (FR (g y) <= FR (acc + g y)%float)%R).
+      { rewrite E1. rewrite <- (rnd_FR (g y)) at 1. apply rnd_le. lra. }
+      split; [lra|]. intros x [<-|Hx]; [lra|now apply I2].
+    + exfalso. apply (pinf_not_fin _ (fold_add_pinf g l _ P1 (fun z Hz => or_introl (H z (or_intror Hz)))) F).
+Qed.
+
+Lemma div_by_pinf_zero x d : nnf x -> pinf d -> nnf (x / d)%float /\ FR (x / d)%float = 0%R.
+Proof.
+  intros [Fx X0] Pd. destruct (fin_nonneg_sf x Fx X0) as [[s [E _]]|[m [e [E _]]]].
+  - assert (Ez : Prim2SF (x / d)%float = S754_zero (xorb s false)) by (rewrite div_spec, E, Pd; reflexivity).
+    split; [exact (sf_zero_nnf _ _ Ez)|]. rewrite FR_SF, Ez. reflexivity.
+  - assert (Ez : Prim2SF (x / d)%float = S754_zero false) by (rewrite div_spec, E, Pd; reflexivity).
+    split; [exact (sf_zero_nnf _ _ Ez)|]. rewrite FR_SF, Ez. reflexivity.
+Qed.
+
+(* n <= 2^31 finite fitness values >= 0 whose float average is not zero: every quotient
+   fitness / average is a finite float in [0, 2n].  (The float sum S is >= every term, or +infinity;
+   the average a = rnd(S/n) satisfies S/n <= 2a because doubling is exact and rounding monotone;
+   hence fitness / a <= 2n, and 2n is a float.) *)
+Theorem quotients_bounded {A} (g : A -> float) l :
+  1 <= Z.of_nat (length l) <= 2 ^ 31 ->
+  (forall x, In x l -> PrimFloat.leb 0%float (g x) = true /\ PrimFloat.ltb (g x) infinity = true) ->
+  let avg := PrimFloat.div (fold_left (fun a x => PrimFloat.add a (g x)) l 0%float) (f_of_Z (Z.of_nat (length l))) in
+  PrimFloat.eqb avg 0%float = false ->
+  forall x, In x l -> nnf (PrimFloat.div (g x) avg) /\ (FR (PrimFloat.div (g x) avg) <= 2 * IZR (Z.of_nat (length l)))%R.
+Proof.
+  intros Hn H avg Hz x Hx. set (n := Z.of_nat (length l)) in *.
+  assert (Hg : forall y, In y l -> nnf (g y)) by (intros y Hy; destruct (H y Hy); now apply nnf_of_cmp).
+  destruct (f_of_Z_exact n) as [Fd Ed]; [lia|].
+  assert (N1 : (1 <= IZR n)%R) by (apply IZR_le; lia).
+  assert (Pd : posf (f_of_Z n)) by (split; [exact Fd|rewrite Ed; lra]).
+  set (S := fold_left (fun a x => PrimFloat.add a (g x)) l 0%float) in *.
+  assert (ES : ext S) by (apply fold_add_ext; [left; exact nnf_zero|intros y Hy; left; now apply Hg]).
+  assert (B2n : (0 <= 2 * IZR n)%R) by lra.
+  destruct (Hg x Hx) as [Fx X0].
+  destruct ES as [NS|PS].
+  2:{ destruct (div_by_pinf_zero (g x) avg (Hg x Hx) (div_pinf S _ PS Pd)) as [Nq Eq]. split; [exact Nq|]. rewrite Eq. exact B2n. }
+  destruct (fold_add_ge g l 0%float nnf_zero Hg (proj1 NS)) as [_ Gx]. specialize (Gx x Hx). fold S in Gx.
+  destruct (div_gen_cases S (f_of_Z n) NS Pd) as [[Na Ea]|[Pa _]].
+  2:{ destruct (div_by_pinf_zero (g x) avg (Hg x Hx) Pa) as [Nq Eq]. split; [exact Nq|]. rewrite Eq. exact B2n. }
+  fold avg in Na, Ea. rewrite Ed in Ea.
+  destruct (ext_nonzero avg (or_introl Na) Hz) as [Pavg|Pi]; [|exfalso; exact (pinf_not_fin _ Pi (proj1 Na))].
+  destruct Pavg as [Fa A0].
+  (* S / n <= 2 avg *)
+  assert (K : (FR S / IZR n <= 2 * FR avg)%R).
+  { destruct (Rle_or_lt (FR S / IZR n) (2 * FR avg)) as [L|L]; [exact L|exfalso].
+    assert (M : (rnd (2 * FR avg) <= rnd (FR S / IZR n))%R) by (apply rnd_le; lra).
+    rewrite rnd_double, <- Ea in M. lra. }
+  assert (K2 : (FR (g x) / FR avg <= 2 * IZR n)%R).
+  { apply Rle_trans with (FR S / FR avg)%R.
+    - unfold Rdiv. apply Rmult_le_compat_r; [left; now apply Rinv_0_lt_compat|exact Gx].
+    - unfold Rdiv in *. apply Rmult_le_reg_r with (FR avg); [exact A0|].
+      rewrite Rmult_assoc, Rinv_l, Rmult_1_r by lra.
+      apply Rmult_le_reg_r with (/ IZR n)%R; [apply Rinv_0_lt_compat; lra|].
+      replace (2 * IZR n * FR avg * / IZR n)%R with (2 * FR avg)%R by (field; lra). exact K. }
+  assert (Q0 : (0 <= FR (g x) / FR avg)%R) by (apply Rmult_le_pos; [exact X0|left; now apply Rinv_0_lt_compat]).
+  assert (R2n : rnd (2 * IZR n) = (2 * IZR n)%R).
+  { replace (2 * IZR n)%R with (IZR (2 * n)) by (rewrite mult_IZR; reflexivity). apply rnd_int53. lia. }
+  assert (Rq : (0 <= rnd (FR (g x) / FR avg) <= 2 * IZR n)%R).
+  { split; [now apply rnd_nonneg|]. rewrite <- R2n. now apply rnd_le. }
+  assert (Lt : (2 * IZR n < two1024)%R).
+  { apply Rlt_trans with (IZR (2 ^ 53)).
+    - replace (2 * IZR n)%R with (IZR (2 * n)) by (rewrite mult_IZR; reflexivity). apply IZR_lt. lia.
+    - change (2 ^ 53) with (Zpower radix2 53). rewrite IZR_Zpower by lia. apply bpow_lt. unfold emax. lia. }
+  destruct (div_R (g x) avg Fx) as [Eq Fq]; [lra|rewrite Rabs_pos_eq by apply Rq; lra|].
+  split; [split; [exact Fq|rewrite Eq; apply Rq]|rewrite Eq; apply Rq].
 Qed.
